@@ -957,6 +957,17 @@ impl<TC: HasRef> DirCtx<TC> {
                             c.swap(i, i + 1);
                             jobs.push(mk(&c, 0, mode, 0, 0));
                         }
+                        // an inner entry overwritten by a copy of a neighbour: a gap hidden behind a duplicate
+                        // (first version, last version and length unchanged)
+                        if i >= 1 && i + 1 < t {
+                            let mut c = base.clone();
+                            c[i] = base[i - 1].clone();
+                            jobs.push(mk(&c, 0, mode, 0, 0));
+                            jobs.push(mk(&c, t as u64, mode, 0, 0));
+                            let mut c = base.clone();
+                            c[i] = base[i + 1].clone();
+                            jobs.push(mk(&c, 0, mode, 0, 0));
+                        }
                         let mut c = base.clone();
                         c[i].0 = other_val(&base[i].0);
                         jobs.push(mk(&c, 0, mode, 0, 0));
